@@ -1290,8 +1290,18 @@ impl RaftLogManager {
         }
         if pop_count > 0 {
             let log_count = self.logs.len() - pop_count;
+            // the files above the cut leave the store: close them and remove them from disk, like split_off does
+            for item in &self.logs[log_count..] {
+                if let Some(log_actor) = &item.log_actor {
+                    log_actor.do_send(RaftLogCmd::Close);
+                }
+                let path = Self::get_log_path(&self.base_path, &item.log_range);
+                std::fs::remove_file(path).ok();
+            }
             self.logs = self.logs[..log_count].to_vec();
             if let Some(last_log) = self.logs.last_mut() {
+                // the new last file takes the appends again
+                last_log.log_range.is_close = false;
                 let log_actor = if let Some(log_actor) = &last_log.log_actor {
                     log_actor.clone()
                 } else {
@@ -1301,6 +1311,11 @@ impl RaftLogManager {
                     log_actor_addr
                 };
                 self.current_log_actor = Some(log_actor);
+            }
+            // a restart must find the shortened catalogue, not the removed files
+            if let Some(index_manager) = self.index_manager.as_ref() {
+                let save_logs = self.logs.iter().map(|e| e.log_range.clone()).collect();
+                index_manager.do_send(RaftIndexRequest::SaveLogs(save_logs));
             }
         }
         if let Some(tx) = tx {
